@@ -12,7 +12,9 @@ def _get_include_paths(path: str, file: models.File) -> Iterator[str]:
     for directive in file.raw_directives:
         if not isinstance(directive, models.Include):
             continue
-        matches = glob.glob(os.path.join(os.path.dirname(path), directive.filename), recursive=True)
+        # Only the include filename is a pattern; the directory of the including file is literal.
+        matches = glob.glob(
+            os.path.join(glob.escape(os.path.dirname(path)), directive.filename), recursive=True)
         if not matches:
             lineno = directive.token_store.get_position(directive.first_token).line
             raise ValueError(f'No files match {directive.filename!r} ({path}:{lineno})')
